@@ -21,18 +21,18 @@ import vlib
 PROPERTY = "C11"
 LEAN_MODULES = ["TapkeeVerif.Props.C11"]
 LEAN_EXES = ["model_c11"]
-REQUIRED_THEOREMS_FINAL = [
+REQUIRED_THEOREMS = [
     "TapkeeVerif.Landmarks.landmarks_distinct_and_counted",
     "TapkeeVerif.Landmarks.lmds_landmarks_eq_mds_of_subset",
     "TapkeeVerif.Landmarks.triangulate_fixes_landmarks",
     "TapkeeVerif.Landmarks.lmds_exact_recovery_partial",
     "TapkeeVerif.Landmarks.lmds_exact_recovery_refuted",
     "TapkeeVerif.Landmarks.ratio_one_eq_nonlandmark",
+    "TapkeeVerif.Landmarks.lisomap_ratio_one_partial",
     "TapkeeVerif.Landmarks.rightCols_inbounds_iff",
+    "TapkeeVerif.Landmarks.lmds_oob_iff",
     "TapkeeVerif.Landmarks.validation_does_not_bound_dimension",
 ]
-
-REQUIRED_THEOREMS = []
 
 # -O0: the four method classes under ASan+UBSan compile in ~35 s instead of ~70 s at -O1; matrices are <= 32 x 32
 FLAGS = [("-O0" if f == "-O1" else f) for f in vlib.HARNESS_FLAGS]
@@ -266,6 +266,14 @@ def api_line(method, n, d, ratio=None, k=None, eig="dense", seed=None, lmwant=No
     return s
 
 
+def rejected_dimension(run, c):
+    """an exception for target_dimension > number of landmarks is a documented rejection (wrong parameter value)"""
+    res = run.impl(["sel n=%d ratio=%s seed=0" % (c.n, c.ratio)])
+    if res and not res[0].startswith("abort:"):
+        return c.d > int(fields(res[0]).get("count", 10 ** 9)) and "target_dimension" in c.o.get("exc", "")
+    return False
+
+
 def report_abort(run, c, tag, name):
     """a sanitizer abort of a landmark method: classify (d > number of landmarks?) and report"""
     ctx = run.ctx
@@ -356,6 +364,8 @@ def judge_lmds(run, cases):
             continue
         if "exc" in c.o and c.o["exc"].startswith("eigendecomposition_failed"):
             ctx.stat("lmds:eigendecomposition_error(documented)")
+        elif "exc" in c.o and rejected_dimension(run, c):
+            ctx.stat("lmds:d>n_l-rejected-by-validation(documented)")
         elif "exc" in c.o:
             ctx.stat("lmds:exception")
             # an exception is a documented outcome only for invalid configurations; the generator emits valid ones
@@ -473,6 +483,9 @@ def judge_lisomap(run, cases):
             continue
         if "exc" in o and o["exc"].startswith("eigendecomposition_failed"):
             ctx.stat("lisomap:eigendecomposition_error(documented)")
+            continue
+        if "exc" in o and rejected_dimension(run, c):
+            ctx.stat("lisomap:d>n_l-rejected-by-validation(documented)")
             continue
         if "exc" in o:
             ctx.stat("lisomap:exception")
